@@ -62,7 +62,7 @@ theorem runesOf_length (cs : List Char) : (runesOf cs).length = cs.length := by 
     with that text: followed by a delimiter it is scanned as the same token, up to the delimiter -/
 theorem readable_scan (cs : List Char) (t : Token) (h : tokenizeRunes (runesOf cs) = .ok [t])
     (hk : AtomKind t.kind) (htext : t.text.length = cs.length) :
-    cs ≠ [] ∧ cs.head? ≠ some (Char.ofNat 0xFEFF) ∧
+    (∃ c0 cs', cs = c0 :: cs' ∧ c0.toNat ≠ 0) ∧ cs.head? ≠ some (Char.ofNat 0xFEFF) ∧
     ∀ d S, IsDelim d → ∀ p : PState, p.errs = 0 → ∃ q,
       (∀ F : Nat, scan (F + 1) (next (runesOf cs ++ d :: S) p).2.1 (next (runesOf cs ++ d :: S) p).1
           (next (runesOf cs ++ d :: S) p).2.2 = (some (t.kind, t.text), ((d.ch : Int), S, q))) ∧
@@ -109,7 +109,24 @@ theorem readable_scan (cs : List Char) (t : Token) (h : tokenizeRunes (runesOf c
       rfl
     rw [e] at h
     obtain ⟨s, hs, hes⟩ := tokLoop_single _ _ _ _ _ h
-    refine ⟨by simp, ?_, ?_⟩
+    have hnul : c0.toNat ≠ 0 := by
+      intro h0
+      have hp : p0.errs = 1 := by
+        rw [ep0]
+        have : (runeOf c0).bad = true ∨ (runeOf c0).ch = 0 := Or.inr h0
+        rw [if_pos this]
+      rw [h0] at hs
+      have ht : scanTok ((0 : Nat) : Int) (runesOf cs') p0 = some (.char 0, next (runesOf cs') p0) := by
+        simp [scanTok, isIdentRune, isLetter, isDigit, isDecimal]
+      rw [scan_of_scanTok _ _ _ _ _ _ (by decide) (by decide) ht] at hs
+      injection hs with _ hs2
+      rw [← hs2] at hes
+      have : 1 ≤ (next (runesOf cs') p0).2.2.errs := by
+        cases hr : runesOf cs' with
+        | nil => obtain ⟨q, hq, he⟩ := next_nil_eq p0; rw [hq]; simp only []; omega
+        | cons x xs => obtain ⟨q, hq, he⟩ := next_cons_eq x xs p0; rw [hq]; simp only []; omega
+      omega
+    refine ⟨⟨c0, cs', rfl, hnul⟩, ?_, ?_⟩
     · simp only [List.head?_cons, ne_eq, Option.some.injEq]
       intro hc
       apply hbom
